@@ -4,6 +4,7 @@
      failure_origin        WHEN the call may end with which error
      sigs_strictly_ordered the signatures of a successful return are STRICTLY ascending by signer address
      giveup_only_after_asking_all  ErrInsufficientObservationResponses only after every observer of every lane was asked
+     giveupB_only_after_asking_all ErrInsufficientSignatureResponses only after every signer RMNHome knows was asked
    All are for every configuration, every choice of what Go leaves to chance and every event list. *)
 Require Import Verif.Model.Base Verif.Model.Rmn Verif.Proofs.BaseP Verif.Proofs.RmnP.
 From Coq Require Import Sorting.Sorted.
@@ -550,6 +551,143 @@ Section GiveUp.
   Qed.
 End GiveUp.
 
+(* ---------- giving up in phase B: ErrInsufficientSignatureResponses only after EVERY signer has been asked ---------- *)
+Section GiveUpB.
+  Variable edv : N -> observation -> N -> bool.
+  Variable vrs : N -> N -> report -> bool.
+  Variable cfg : config.
+  Variable sc : sched.
+
+  Notation gstepF := (gstep edv vrs fixed cfg sc).
+  Notation runF := (run edv vrs fixed cfg sc).
+
+  (* a report-signature request to node n is in the log (accepted by PeerClient.Send or not) *)
+  Definition sig_asked (l : list send_rec) (n : node) : Prop := exists r, In r l /\ sd_kind r = 1%N /\ sd_node r = n.
+  Lemma sig_asked_app_l l l' n : sig_asked l n -> sig_asked (l ++ l') n.
+  Proof. intros (r & H & K). exists r. split; [apply in_app_iff; now left|exact K]. Qed.
+  Lemma sig_asked_last l n id ok : sig_asked (l ++ [mkSend 1%N n id ok []]) n.
+  Proof. eexists. split; [apply in_app_iff; right; left; reflexivity|]. cbn. auto. Qed.
+
+  (* signersRequested only holds nodes a request was sent to *)
+  Definition sgI (st : sigsend) : Prop := forall n, In n (gs_asked st) -> sig_asked (gs_log st) n.
+  Lemma sgI_fail st n id ids k :
+    sgI st -> sgI (mkSigsend ids (gs_asked st) k (gs_log st ++ [mkSend 1%N n id false []])).
+  Proof. intros I m Hm. cbn [gs_asked gs_log] in *. now apply sig_asked_app_l, I. Qed.
+  Lemma sgI_ok st n id ids k :
+    sgI st -> sgI (mkSigsend ids (set_addN n (gs_asked st)) k (gs_log st ++ [mkSend 1%N n id true []])).
+  Proof.
+    intros I m Hm. cbn [gs_asked gs_log] in *. apply set_addN_in in Hm as [Hm| ->].
+    - now apply sig_asked_app_l, I.
+    - apply sig_asked_last.
+  Qed.
+
+  Lemma send_sigs_first_sgI order : forall st, sgI st -> sgI (send_sigs_first cfg sc order st).
+  Proof.
+    induction order as [|n rest IH]; intros st I; cbn [send_sigs_first]; [exact I|].
+    destruct (gte_f_plus_one _ _); [exact I|]. destruct (negb (is_home cfg n)); [now apply IH|].
+    destruct (s_fail sc (gs_k st)); apply IH; [now apply sgI_fail|now apply sgI_ok].
+  Qed.
+
+  Lemma send_sigs_more_all order : forall st,
+    sgI st ->
+    sgI (send_sigs_more cfg sc order st) /\
+    (forall n, sig_asked (gs_log st) n -> sig_asked (gs_log (send_sigs_more cfg sc order st)) n) /\
+    (forall n, In n order -> is_home cfg n = true -> sig_asked (gs_log (send_sigs_more cfg sc order st)) n).
+  Proof.
+    induction order as [|n rest IH]; intros st I; cbn [send_sigs_more]; [split; [exact I|split; [auto|intros n []]]|].
+    destruct (memN n (gs_asked st)) eqn:Ea.
+    { destruct (IH st I) as (I' & M & A). split; [exact I'|]. split; [exact M|].
+      intros m [<-|Hm] Hh; [|now apply A]. apply M, I. now apply memN_in. }
+    destruct (is_home cfg n) eqn:Eh; cbn [negb].
+    2:{ destruct (IH st I) as (I' & M & A). split; [exact I'|]. split; [exact M|].
+        intros m [<-|Hm] Hh; [congruence|now apply A]. }
+    destruct (s_fail sc (gs_k st)).
+    - match goal with |- context [send_sigs_more cfg sc rest ?x] => destruct (IH x) as (I' & M & A) end;
+        [now apply sgI_fail|]. cbn [gs_log] in M. split; [exact I'|]. split.
+      + intros m Hm. now apply M, sig_asked_app_l.
+      + intros m [<-|Hm] Hh; [apply M, sig_asked_last|now apply A].
+    - match goal with |- context [send_sigs_more cfg sc rest ?x] => destruct (IH x) as (I' & M & A) end;
+        [now apply sgI_ok|]. cbn [gs_log] in M. split; [exact I'|]. split.
+      + intros m Hm. now apply M, sig_asked_app_l.
+      + intros m [<-|Hm] Hh; [apply M, sig_asked_last|now apply A].
+  Qed.
+
+  Definition all_signers_asked (l : list send_rec) : Prop :=
+    forall n, In n (signer_nodes cfg) -> is_home cfg n = true -> sig_asked l n.
+
+  Definition askBI (g : gstate) : Prop :=
+    match g with
+    | GB s =>
+        (forall n, In n (b_asked s) -> sig_asked (b_log s) n) /\ (b_exp s = true -> all_signers_asked (b_log s))
+    | GFinal (Failure FInsufSigs) l => (0 <= c_remoteF cfg)%Z /\ all_signers_asked l
+    | _ => True
+    end.
+
+  Lemma prepare_inr_cases f : prepare cfg = inr f -> f = FDupChain \/ f = FNoF \/ f = FNothingToDo.
+  Proof.
+    unfold prepare. destruct (negb _); [intros H; inversion H; auto|].
+    destruct (with_F _ _); [|intros H; inversion H; auto]. destruct (filter _ _); intros H; inversion H; auto.
+  Qed.
+
+  Lemma askBI_init : askBI (ginit cfg sc).
+  Proof.
+    unfold ginit. destruct (prepare cfg) as [[us| | |]|f] eqn:P; try exact Logic.I.
+    destruct (prepare_inr_cases f P) as [->|[->| ->]]; exact Logic.I.
+  Qed.
+
+  Lemma askBI_step g e : askBI g -> askBI (gstepF g e).
+  Proof.
+    intros I. destruct g as [us s|s|f l]; cbn [gstep]; [| |exact I].
+    - destruct (stepA edv fixed cfg sc us s e) as [s'|[acc|f]] eqn:Es; [exact Logic.I| |].
+      + unfold enterB.
+        destruct (startB_cases cfg sc us acc (a_k s) (a_log s)) as [(f' & E & Hf)|[E|(sb & E & Eb1 & Eb2)]]; rewrite E.
+        * destruct Hf as [->|[->| ->]]; exact Logic.I.
+        * exact Logic.I.
+        * cbn [askBI]. rewrite Eb1, Eb2. split.
+          -- apply send_sigs_first_sgI. intros n [].
+          -- unfold startB in E. destruct (all_votes acc); try discriminate. destruct (select_roots _ _ _); try discriminate.
+             destruct (negb _); try discriminate. destruct (tas_panics _); try discriminate.
+             destruct (lt_f_plus_one _ _); try discriminate. inversion E; subst sb. cbn. discriminate.
+      + destruct (stepA_done_fail edv cfg sc _ _ _ _ Es) as [[_ ->]|[->| ->]]; exact Logic.I.
+    - destruct I as [Ia Ix]. destruct (stepB vrs fixed cfg sc s e) as [s'|f] eqn:Es.
+      + cbn [askBI]. destruct e as [n b| |]; cbn [stepB] in Es.
+        * destruct (parse _ _ _ _ _) as [[id p]|]; [|inversion Es; subst; auto].
+          destruct (validate_sig _ _ _ _ _) as [[a g0]| | |]; try discriminate;
+            (destruct (gte_f_plus_one _ _); [discriminate|]; destruct (_ && _); [discriminate|];
+             inversion Es; cbn; auto).
+        * destruct (b_exp s) eqn:Ex; inversion Es; cbn [b_log b_asked b_exp]; [auto|].
+          destruct (send_sigs_more_all (order_by (s_shufB2 sc) (signer_nodes cfg))
+                      (mkSigsend (b_ids s) (b_asked s) (b_k s) (b_log s))) as (I' & _ & A); [exact Ia|].
+          split; [exact I'|]. intros _ n Hn Hh. apply A; [now apply order_by_in|exact Hh].
+        * discriminate.
+      + cbn [askBI]. destruct f as [sigs rep|f|]; try exact Logic.I. destruct f; try exact Logic.I.
+        destruct e as [n b| |]; cbn [stepB] in Es.
+        * destruct (parse _ _ _ _ _) as [[id p]|]; [|discriminate].
+          assert (Hx : b_exp s = true /\ exists v, (0 <= v)%Z /\ gte_f_plus_one (c_remoteF cfg) v = false).
+          { destruct (validate_sig _ _ _ _ _) as [[a g0]| | |]; try discriminate;
+              (match type of Es with context [gte_f_plus_one ?f ?v] => destruct (gte_f_plus_one f v) eqn:Eg end;
+               [discriminate|]; destruct (b_exp s); [split; [reflexivity|eexists; split; [|exact Eg]; unfold zlen; lia]|cbn [andb] in Es; discriminate]). }
+          destruct Hx as [Ex (v & Hv & Eg)]. split; [|now apply Ix].
+          unfold gte_f_plus_one in Eg. apply Z.leb_gt in Eg. lia.
+        * destruct (b_exp s); discriminate.
+        * discriminate.
+  Qed.
+
+  Lemma askBI_run evs : askBI (runF evs).
+  Proof.
+    unfold run. generalize askBI_init. generalize (ginit cfg sc) as g.
+    induction evs as [|e evs IH]; intros g I; cbn [fold_left]; [exact I|]. apply IH. now apply askBI_step.
+  Qed.
+
+  (* ErrInsufficientSignatureResponses is returned only after a report-signature request has gone (accepted by
+     PeerClient.Send or not) to EVERY configured signer that RMNHome knows; and only with F_remote >= 0 *)
+  Theorem giveupB_only_after_asking_all evs l :
+    runF evs = GFinal (Failure FInsufSigs) l ->
+    (0 <= c_remoteF cfg)%Z /\
+    forall n, In n (signer_nodes cfg) -> is_home cfg n = true -> sig_asked l n.
+  Proof. intros E. pose proof (askBI_run evs) as I. rewrite E in I. exact I. Qed.
+End GiveUpB.
+
 (* non-vacuity: the honest run of Witness — four requests, well-formed; the strict order of its two signatures *)
 Example requests_wellformed_example :
   exists us, prepare Witness.cfg = inl (Ok us) /\
@@ -568,4 +706,13 @@ Example giveup_example :
               [Resp 1 (BMsg 1 (Witness.obs_of 99 105)); TimerFire; Resp 2 (BMsg 2 (Witness.obs_of 22 105));
                Resp 3 (BMsg 3 (Witness.obs_of 99 105))]%N = GFinal (Failure FInsufObs) l /\
             map (fun r => (sd_kind r, sd_node r, sd_chains r)) l = [(0, 1, [5]); (0, 2, [5]); (0, 3, [5])]%N.
+Proof. eexists. split; vm_compute; reflexivity. Qed.
+(* giving up in phase B after everyone was asked (Witness.cfg, F_remote = 1, first wave = signers 1 and 2): 1 answers
+   with a bad signature (the timer is reset and fires: 3 is asked), 2 and 3 answer badly too *)
+Example giveupB_example :
+  exists l, run Witness.edv Witness.vrs fixed Witness.cfg Witness.sc
+              [Resp 1 (BMsg 1 (Witness.obs_of 21 105)); Resp 2 (BMsg 2 (Witness.obs_of 22 105));
+               Resp 1 (BMsg 3 (Witness.sig_of 9901)); TimerFire; Resp 2 (BMsg 4 (Witness.sig_of 9902));
+               Resp 3 (BMsg 5 (Witness.sig_of 9903))]%N = GFinal (Failure FInsufSigs) l /\
+            map (fun r => (sd_kind r, sd_node r)) l = [(0, 1); (0, 2); (1, 1); (1, 2); (1, 3)]%N.
 Proof. eexists. split; vm_compute; reflexivity. Qed.
